@@ -187,9 +187,11 @@ def _scalar_member_sites(pkg):
 
 
 def _container_underneath(pkg, t, depth=0):
-    """True if t is (an alias chain ending in) a vector, array or map"""
+    """"container" if t is (an alias chain ending in) a vector, array or map, "union" if it ends in a union, else False"""
     if isinstance(t, (V, A, M)):
-        return True
+        return "container"
+    if isinstance(t, U) and not t.is_optional:
+        return "union"
     if isinstance(t, N) and t.ns is None and depth < 20:
         d = pkg.find(t.name)
         if isinstance(d, Al) and not d.tparams:
